@@ -33,7 +33,7 @@ def is_call(e, suffix):
 def inventory(facts):
     ops = []
     for f in facts.fns.values():
-        if f.crate == "ext":
+        if f.crate in ("ext", "promoted"):
             continue
         for bi, b in enumerate(f.blocks):
             if b["cleanup"]:
